@@ -90,7 +90,8 @@ class MPUChunk:
         self.is_final = is_final
         self.lhs_keep = lhs_keep
         # if supplying data must also supply observed
-        assert data is None or (observed is not None and len(observed) > 0)
+        # (merging partitions that hold no chunks supplies an empty buffer)
+        assert not data or (observed is not None and len(observed) > 0)
 
     def __dask_tokenize__(self):
         return (
